@@ -7,6 +7,12 @@ contents): an error when the buffer is shorter than the encoded size, otherwise 
 exactly the encoded size (PDU length; + 3 for RTU; + 7 for TCP); never a panic; on success every
 byte beyond the returned length is the byte that was there before.
 
+TCP: the MBAP length field holds PDU length + 1 in 16 bits; the encoders convert it with
+`u16::try_from` and refuse a PDU of more than 65534 bytes for EVERY buffer (`tcp_oversize_refused`;
+only a custom PDU can be that long — the standard kinds have at most 265 bytes).  `tcpRequest` /
+`tcpResponse` therefore carry the hypothesis `image.length + 1 ≤ 65535`; `tcp_exact` is the exact
+outcome without any hypothesis on the size, `tcpRequest_total` / `tcpResponse_total` say "never a panic".
+
 `Encodable` (Lemmas/Encode.lean) is the decidable predicate "implemented kind, byte count fits its
 one-byte field, container holds the bytes its count promises"; every value built by the public
 constructors within the Modbus limits satisfies it (`built_*_encodable` below).
@@ -82,19 +88,129 @@ theorem rtuResponse (slave : UInt8) (p : ResponsePdu) (h : p.Encodable) :
   rw [rtu_size]
   exact Rtu.encodeAdu_eq slave p.encode p.image (responsePdu p h) (ResponsePdu.image_pos p h) buf
 
-/-- TCP request ADU: size = PDU length + 7 -/
-theorem tcpRequest (tid : UInt16) (uid : UInt8) (r : Request) (h : r.Encodable) :
-    EncSpec (Tcp.encodeRequest tid uid r) (Tcp.frameImage tid uid r.image) := by
+/-! ### TCP: the MBAP length field is a `u16` holding PDU length + 1
+
+`encode_request` / `encode_response` convert `len + 1` with `u16::try_from` and refuse (an error, never a
+wrapped field, never a panic) when it does not fit.  So the TCP encoders satisfy `EncSpec` exactly when the
+PDU image has at most 65534 bytes — which covers every standard kind (their images have at most 265 bytes,
+`request_image_small` / `responsePdu_image_small` below) — and refuse every buffer otherwise. -/
+
+/-- the exact outcome of the TCP ADU encoder, for every PDU encoder obeying the PDU equation, every image
+    size and every buffer -/
+theorem tcp_exact (tid : UInt16) (uid : UInt8) (encPdu : Bytes → Res (Nat × Bytes)) (img : Bytes)
+    (henc : EncSpec encPdu img) (buf : Bytes) :
+    Tcp.encodeAdu tid uid encPdu buf =
+      if buf.length < img.length + 7 then .err .bufferSize
+      else if 65535 < img.length + 1 then .err .bufferSize
+      else .ok (img.length + 7, Tcp.frameImage tid uid img ++ buf.drop (img.length + 7)) :=
+  Tcp.encodeAdu_eq tid uid encPdu img henc buf
+
+/-- a PDU whose length + 1 fits the 16-bit length field: the TCP encoder obeys the C12 equation -/
+theorem tcp_fits (tid : UInt16) (uid : UInt8) (encPdu : Bytes → Res (Nat × Bytes)) (img : Bytes)
+    (henc : EncSpec encPdu img) (hlen : img.length + 1 ≤ 65535) :
+    EncSpec (Tcp.encodeAdu tid uid encPdu) (Tcp.frameImage tid uid img) := by
   intro buf
-  rw [tcp_size]
-  exact Tcp.encodeAdu_eq tid uid (RequestPdu.encode r) r.image (requestPdu r h) buf
+  rw [tcp_size, tcp_exact tid uid encPdu img henc buf]
+  have : ¬ 65535 < img.length + 1 := by omega
+  simp only [this, if_false]
+
+/-- a PDU whose length + 1 does not fit the 16-bit length field is refused for EVERY buffer: an error —
+    never a success with a wrapped length field, never a panic -/
+theorem tcp_oversize_refused (tid : UInt16) (uid : UInt8) (encPdu : Bytes → Res (Nat × Bytes)) (img : Bytes)
+    (henc : EncSpec encPdu img) (hbig : 65535 < img.length + 1) (buf : Bytes) :
+    Tcp.encodeAdu tid uid encPdu buf = .err .bufferSize := by
+  rw [tcp_exact tid uid encPdu img henc buf]
+  simp only [hbig, if_true]
+  split <;> rfl
+
+/-- TCP request ADU: size = PDU length + 7 (for every encodable request whose PDU length + 1 fits the
+    16-bit MBAP length field) -/
+theorem tcpRequest (tid : UInt16) (uid : UInt8) (r : Request) (h : r.Encodable)
+    (hlen : r.image.length + 1 ≤ 65535) :
+    EncSpec (Tcp.encodeRequest tid uid r) (Tcp.frameImage tid uid r.image) :=
+  tcp_fits tid uid (RequestPdu.encode r) r.image (requestPdu r h) hlen
 
 /-- TCP response ADU (exceptions included) -/
-theorem tcpResponse (tid : UInt16) (uid : UInt8) (p : ResponsePdu) (h : p.Encodable) :
-    EncSpec (Tcp.encodeResponse tid uid p) (Tcp.frameImage tid uid p.image) := by
-  intro buf
-  rw [tcp_size]
-  exact Tcp.encodeAdu_eq tid uid p.encode p.image (responsePdu p h) buf
+theorem tcpResponse (tid : UInt16) (uid : UInt8) (p : ResponsePdu) (h : p.Encodable)
+    (hlen : p.image.length + 1 ≤ 65535) :
+    EncSpec (Tcp.encodeResponse tid uid p) (Tcp.frameImage tid uid p.image) :=
+  tcp_fits tid uid p.encode p.image (responsePdu p h) hlen
+
+/-- an encodable request too long for the length field: refused for every buffer, no panic -/
+theorem tcpRequest_oversize_refused (tid : UInt16) (uid : UInt8) (r : Request) (h : r.Encodable)
+    (hbig : 65535 < r.image.length + 1) (buf : Bytes) :
+    Tcp.encodeRequest tid uid r buf = .err .bufferSize :=
+  tcp_oversize_refused tid uid (RequestPdu.encode r) r.image (requestPdu r h) hbig buf
+
+/-- an encodable response too long for the length field: refused for every buffer, no panic -/
+theorem tcpResponse_oversize_refused (tid : UInt16) (uid : UInt8) (p : ResponsePdu) (h : p.Encodable)
+    (hbig : 65535 < p.image.length + 1) (buf : Bytes) :
+    Tcp.encodeResponse tid uid p buf = .err .bufferSize :=
+  tcp_oversize_refused tid uid p.encode p.image (responsePdu p h) hbig buf
+
+/-- the TCP encoders never panic, whatever the value's size and whatever the buffer -/
+theorem tcpRequest_total (tid : UInt16) (uid : UInt8) (r : Request) (h : r.Encodable) (buf : Bytes) :
+    Tcp.encodeRequest tid uid r buf ≠ .panic := by
+  show Tcp.encodeAdu tid uid (RequestPdu.encode r) buf ≠ .panic
+  rw [tcp_exact tid uid (RequestPdu.encode r) r.image (requestPdu r h) buf]
+  split
+  · simp
+  · split <;> simp
+
+theorem tcpResponse_total (tid : UInt16) (uid : UInt8) (p : ResponsePdu) (h : p.Encodable) (buf : Bytes) :
+    Tcp.encodeResponse tid uid p buf ≠ .panic := by
+  show Tcp.encodeAdu tid uid p.encode buf ≠ .panic
+  rw [tcp_exact tid uid p.encode p.image (responsePdu p h) buf]
+  split
+  · simp
+  · split <;> simp
+
+/-! the side condition holds for every standard kind: their images are short -/
+
+/-- every encodable response of a standard (non-custom) kind has an image of at most 257 bytes -/
+theorem response_image_small (r : Response) (h : r.Encodable) (hstd : ∀ fc d, r ≠ .custom fc d) :
+    r.image.length ≤ 257 := by
+  cases r <;>
+    simp_all [Response.image, Response.Encodable, Data.len, List.length_take] <;> omega
+
+/-- every encodable `ResponsePdu` of a standard kind fits the TCP length field -/
+theorem responsePdu_image_small (p : ResponsePdu) (h : p.Encodable) (hstd : ∀ fc d, p ≠ .ok (.custom fc d)) :
+    p.image.length + 1 ≤ 65535 := by
+  cases p with
+  | ok r =>
+    have := response_image_small r h.1 (fun fc d e => hstd fc d (by rw [e]))
+    simp only [ResponsePdu.image]; omega
+  | error e => simp [ResponsePdu.image, ExceptionResponse.image]
+
+/-- every encodable request of a standard kind whose register payload holds at most 255 bytes (as every
+    decoded or constructor-built one does) has an image of at most 265 bytes -/
+theorem request_image_small (r : Request) (h : r.Encodable) (hstd : ∀ fc d, r ≠ .custom fc d)
+    (hdata : match r with
+      | .writeMultipleRegisters _ d => d.data.length ≤ 255
+      | .readWriteMultipleRegisters _ _ _ d => d.data.length ≤ 255
+      | _ => True) :
+    r.image.length ≤ 265 := by
+  cases r with
+  | custom fc d => exact absurd rfl (hstd fc d)
+  | writeMultipleCoils a c =>
+    have := h.1
+    simp only [Request.image, List.length_append, List.length_take, List.length_cons, List.length_nil, be16_length]
+    omega
+  | writeMultipleRegisters a d =>
+    have : d.data.length ≤ 255 := hdata
+    simp only [Request.image, List.length_append, List.length_cons, List.length_nil, be16_length]
+    omega
+  | readWriteMultipleRegisters ra q wa d =>
+    have : d.data.length ≤ 255 := hdata
+    simp only [Request.image, List.length_append, List.length_cons, List.length_nil, be16_length]
+    omega
+  | _ => simp [Request.image]
+
+/-- hence the TCP encoders obey the C12 equation for every standard response -/
+theorem tcpResponse_standard (tid : UInt16) (uid : UInt8) (p : ResponsePdu) (h : p.Encodable)
+    (hstd : ∀ fc d, p ≠ .ok (.custom fc d)) :
+    EncSpec (Tcp.encodeResponse tid uid p) (Tcp.frameImage tid uid p.image) :=
+  tcpResponse tid uid p h (responsePdu_image_small p h hstd)
 
 /-! non-vacuity: concrete encodable values (9 coils built by the constructor; an exception) -/
 example : (Request.writeMultipleCoils 5 ⟨[0xCD, 0x01], 9⟩).Encodable := by
@@ -104,5 +220,14 @@ example : (ResponsePdu.error ⟨FunctionCode.new 3, .illegalDataAddress⟩).Enco
   decide
 example : (Request.readCoils 1 2).encode [0, 0, 0, 0] = .err .bufferSize := by decide
 example : (Request.readCoils 1 2).encode [9, 9, 9, 9, 9, 7] = .ok (5, [1, 0, 1, 0, 2, 7]) := by decide
+
+/-- a custom PDU of 65535 bytes (function byte + 65534 data bytes) is refused by the TCP encoder whatever the
+    buffer; one byte less is accepted with length field 0xFFFF -/
+example (d buf : Bytes) (hd : d.length = 65534) :
+    Tcp.encodeRequest 1 2 (.custom (.custom 0x41) d) buf = .err .bufferSize :=
+  tcpRequest_oversize_refused 1 2 (.custom (.custom 0x41) d) trivial (by simp [Request.image, hd]) buf
+example (d : Bytes) (hd : d.length = 65533) :
+    (Tcp.frameImage 1 2 (Request.custom (.custom 0x41) d).image).take 7 = [0, 1, 0, 0, 0xFF, 0xFF, 2] := by
+  simp [Tcp.frameImage, Request.image, hd, be16]
 
 end Modbus.C12
